@@ -175,6 +175,12 @@ func c07TwoParty(k *core.Case) {
 			k.Violate("error", "GenerateRandomNumber-error", err.Error(), w)
 			return
 		}
+		if k.Index%3 == 1 {
+			// force a shared secret with leading zero octets (g^ir = 1 or 2^r for a small r): RFC 7296 2.14 feeds the
+			// fixed-length value, leading zeros included, into the prf
+			secret = big.NewInt(int64(k.Index / 3 % 2))
+			w["initiator_exponent"] = secret.String()
+		}
 		pubI := ini.DhInfo.GetPublicValue(secret)
 		// proposal travels through the wire
 		prop, err := ini.ToProposal()
@@ -249,8 +255,11 @@ func c07TwoParty(k *core.Case) {
 				return
 			}
 		}
-		k.Distinct(fmt.Sprintf("two-party|%d%d%d%d", e, i, p, d))
+		k.Distinct(fmt.Sprintf("two-party|%d%d%d%d|lz%v", e, i, p, d, shared[0] == 0))
 		k.Count("two_party_runs", 1)
+		if shared[0] == 0 {
+			k.Count("two_party_shared_secret_with_leading_zeros", 1)
+		}
 	})
 	if pn != nil {
 		k.Violate("panic", "two-party: "+pn.Sig(), "panic in the two-party run", panicData(pn, w))
@@ -262,7 +271,8 @@ func c07(c *core.Ctx) {
 		"two-party case = initiator exponent + public value, proposal through SA payload wire form, responder NewIKESAKey, initiator GetSharedKey + GenerateKeyForIKESA, keys compared and messages exchanged both ways; distinct = cell x length classes")
 	c.Info("assumptions", "reference HMAC/prf+ in /verif/harness/ref; lengths table typed from RFC 7296/4868/2404/2403")
 	c.Family("derive", c.N(54*100, 54*5000), c07Derive)
-	c.Family("two-party", c.N(108, 2000), c07TwoParty)
+	c.Family("two-party", c.N(162, 3000), c07TwoParty)
+	c.Require("two_party_runs", "two_party_shared_secret_with_leading_zeros")
 }
 
 // ---------------------------------------------------------------------------
